@@ -312,6 +312,26 @@ func (g *Gen) havocLoc(env *Env, le Expr) error {
 			g.heapSet(g.cur, h, fmt.Sprintf("(store %s (sl.ref %s) %s)", g.heapGet(g.cur, h), v.S, na))
 			return nil
 		}
+		if x.Fun == "fields" && len(x.Args) == 1 {
+			// fields(p): every field of the struct p points to (embedded structs included)
+			v := g.eval(env, x.Args[0])
+			if v.Addr != nil || v.T == nil {
+				return fmt.Errorf("fields() needs a struct reference")
+			}
+			p, ok := v.T.Underlying().(*types.Pointer)
+			if !ok {
+				return fmt.Errorf("fields() needs a pointer to struct")
+			}
+			// a nil reference has no fields to modify
+			save := g.cur.clone()
+			g.havocStructAt(p.Elem(), v.S)
+			for h, t := range g.cur.store {
+				if old, ok := save.store[h]; (!ok || old != t) && strings.HasPrefix(h, "F.") {
+					g.cur.store[h] = g.define(h, g.heapSort[h], fmt.Sprintf("(ite (= %s 0) %s %s)", v.S, g.heapGet(save, h), t))
+				}
+			}
+			return nil
+		}
 		if x.Fun == "all" && len(x.Args) == 1 {
 			// all(Type.field): the field of every object
 			if f, ok := x.Args[0].(*EField); ok {
